@@ -1207,6 +1207,15 @@ impl BinderH {
     }
 }
 
+/// mirror of the library's documented (but not re-exported) `TokenBinderStorageKey`: a contracttype enum key is encoded by its
+/// variant names, so this addresses the same entries; used only to pre-fill the capacity scenarios (see run_binder)
+#[soroban_sdk::contracttype]
+#[derive(Clone)]
+pub enum BinderLayoutKey {
+    TokenBucket(u32),
+    TotalCount,
+}
+
 pub fn run_binder(case: &BCase, ctx: &mut Ctx) -> R {
     let e = new_env(100);
     let c = e.register(Binder, ());
@@ -1215,8 +1224,26 @@ pub fn run_binder(case: &BCase, ctx: &mut Ctx) -> R {
     for _ in 0..B_UNI {
         h.new_tok();
     }
-    // set-up: fillers through the batch entry point
+    // set-up: fillers through the batch entry point.  The capacity scenarios (base > 1000) write all but the last ~300
+    // fillers as full buckets straight into the documented storage layout (`TokenBinderStorageKey`): `bind_tokens` rebuilds
+    // an immutable host map of every bound token on each call, which costs O(n^2) host memory that a test Env never frees
+    // (12 GB for 10 000 tokens through the API).  Everything at and around the limit then goes through the library.
     let mut left = case.base as usize;
+    if left > 1000 {
+        use BinderLayoutKey as K;
+        let direct_buckets = (left - 2 * MAX_BATCH) / TOKEN_BUCKET;
+        let mut all: Vec<usize> = vec![];
+        e.as_contract(&c, || {
+            for b in 0..direct_buckets {
+                let ids: Vec<usize> = (0..TOKEN_BUCKET).map(|_| h.new_tok()).collect();
+                e.storage().persistent().set(&K::TokenBucket(b as u32), &h.addr_vec(&ids));
+                all.extend(ids);
+            }
+            e.storage().persistent().set(&K::TotalCount, &((direct_buckets * TOKEN_BUCKET) as u32));
+        });
+        h.set.extend(all);
+        left -= direct_buckets * TOKEN_BUCKET;
+    }
     while left > 0 {
         // capacity scenarios fill with full 200-token batches, ordinary cases with smaller ones
         let k = left.min(if case.base as usize > 1000 { MAX_BATCH } else { 150 });
@@ -1227,9 +1254,13 @@ pub fn run_binder(case: &BCase, ctx: &mut Ctx) -> R {
         left -= k;
     }
     let big = case.base as usize > 1000;
+    let rss = || std::fs::read_to_string("/proc/self/statm").ok().and_then(|s| s.split_whitespace().nth(1).and_then(|x| x.parse::<u64>().ok())).unwrap_or(0) * 4 / 1024;
+    if std::env::var("VERIF_RSS").is_ok() { eprintln!("binder after prefill rss={} MB", rss()); }
     h.check(false, false, None, "after set-up")?;
+    if std::env::var("VERIF_RSS").is_ok() { eprintln!("binder after first check rss={} MB", rss()); }
     let n_ops = case.ops.len();
     for (step, op) in case.ops.iter().enumerate() {
+        if std::env::var("VERIF_RSS").is_ok() { eprintln!("binder step {step} rss={} MB", rss()); }
         let what = format!("step {step} {:?}", op);
         let absent: Vec<usize> = (0..B_UNI).filter(|k| !h.set.contains(k)).collect();
         let removed: Vec<usize> = h.removed.iter().copied().filter(|k| !h.set.contains(k)).collect();
